@@ -5,6 +5,7 @@ CONSTANTS
   RPB = 1
   NSigs = 2
   NHours = 1
+  NKeys = 1
   MaxBuf = 2
   QCap = 4
   NWorkers = 1
